@@ -89,12 +89,18 @@ class C04Refine(Harness):
             for lv in levels:
                 for adj in adjusts:
                     out.append(dict(GRIDS[g], g=g, cls=cls, sym=sym, levels=lv, adjust=adj, _cost=3 if sym else 1))
+        # evaluation protocol of the optimiser (further evaluations after the returned iterate, unconverged runs; the
+        # real runs use max_nfev=2) and the loss it minimises
+        for g, cls, sym in [("c1n", "DiffuseDroplet", True), ("polar", "SphericalDroplet", False), ("sph", "DiffuseDroplet", False),
+                            ("c2", "DiffuseDroplet", False)] + ([("cylq", "DiffuseDroplet", False)] if th else []):
+            for adj in (False, True):
+                out.append(dict(GRIDS[g], g=g, cls=cls, sym=sym, levels="given", adjust=adj, proto=True, _cost=6 if sym else 2))
         return out
 
     def install(self, env, cfg):
         if env.mode != "float":
             from symx.models import optimize
-            optimize.reset(cost=False, window=F(1, 2))
+            optimize.reset(cost=False, window=F(1, 2), protocol=bool(cfg.get("proto")))
 
     def sample(self, cfg, rng):
         sp = gridfam.spec_of(cfg)
@@ -139,7 +145,24 @@ class C04Refine(Harness):
             region = env.np.asarray(data)[m]
             env.tag("adjust_values_constant_fit_region", region.size == 0 or float(region.max()) == float(region.min()))
         cand_vals = ([env.num(x) for x in cand.position], env.num(cand.radius))
-        res = env.IA.refine_droplet(field, cand, **kw)
+        if cfg.get("proto"):
+            kw["least_squares_params"] = dict(max_nfev=2)
+        spy = []
+        if env.mode == "float":
+            import scipy.optimize as _so
+            from harness.c19 import patched
+            real_lsq = _so.least_squares
+
+            def spying(fun, x0, *a, **k):
+                r = real_lsq(fun, x0, *a, **k)
+                spy.append(dict(x0=list(env.np.atleast_1d(x0)), x=list(r.x), kwargs=dict(k), success=bool(r.success)))
+                return r
+
+            cand0 = cand.copy()
+            with patched(_so, "least_squares", spying):
+                res = env.IA.refine_droplet(field, cand, **kw)
+        else:
+            res = env.IA.refine_droplet(field, cand, **kw)
         # ---- class, ranges
         want = cls if cls != "SphericalDroplet" else "DiffuseDroplet"
         env.prove("result has the candidate's class (at least a diffuse interface)", type(res).__name__ == want)
@@ -167,21 +190,42 @@ class C04Refine(Harness):
         env.prove("the image is not modified", all(env.same_object(data[idx], v) or bool(env.eq(data[idx], v))
                                                    for idx, v in snapshot) and env.same_object(field.data, data) or all(
             bool(env.eq(field.data[idx], v)) for idx, v in snapshot))
-        # ---- optimiser interface (symbolic side only: what was handed to least_squares)
-        if env.mode != "float":
-            from symx.models import optimize
-            calls = optimize.CONFIG["calls"]
+        # ---- optimiser interface: what was handed to least_squares and what was done with its result
+        # (symbolic side: the contract stub's record; float side: a spy around the real scipy function)
+        if True:
+            if env.mode != "float":
+                from symx.models import optimize
+                calls = optimize.CONFIG["calls"]
+            else:
+                calls = spy
             env.prove("least_squares called exactly once", len(calls) == 1)
             if len(calls) == 1:
                 c = calls[0]
                 nfree = len(c["x0"])
-                env.cover("optimiser result differs from the start", env.Or(*[c["x"][i] != c["x0"][i] for i in range(nfree)]))
-                f1 = c["f1"]
-                # the returned droplet is the optimiser's result: rendering it again reproduces the final residual
-                lv = (c["x"][-2], c["x"][-1]) if cfg["adjust"] else None
-                img = res._get_phase_field(grid)
-                mask_cells = [idx for idx in cells_of(sp)]
-                # residual = level-scaled profile - image on the fit region; compare sums of squares
+                if env.mode != "float":
+                    env.cover("optimiser result differs from the start", env.Or(*[c["x"][i] != c["x0"][i] for i in range(nfree)]))
+                    if cfg.get("proto"):
+                        env.cover("unconverged optimiser run", not c["success"])
+                        env.cover("last evaluated point differs from the returned iterate",
+                                  env.Or(*[c["x"][i] != c["x_last"][i] for i in range(nfree)]))
+                    # scipy guarantees a non-increasing value of the loss it minimises; that is the squared deviation
+                    # over the fitted region only for the (default) linear loss
+                    env.prove("refinement minimises the squared deviation over the fitted region, which does not increase",
+                              c["kwargs"].get("loss", "linear") == "linear")
+                elif cfg["levels"] == "given" and not cfg["adjust"]:
+                    from scipy import ndimage as _ndi
+                    c0 = cand0 if hasattr(cand0, "interface_width") else env.D.DiffuseDroplet.from_droplet(cand0)
+                    if c0.interface_width is None:
+                        c0.interface_width = grid.typical_discretization
+                    m = _ndi.binary_dilation(c0._get_phase_field(grid, dtype=bool), iterations=1 + int(2 * c0.interface_width))
+                    img0 = env.np.asarray(data, dtype=float)[m]
+
+                    def dev(d):
+                        return float(env.np.sum((vmin + (vmax - vmin) * d._get_phase_field(grid)[m] - img0) ** 2))
+
+                    d0, d1 = dev(c0), dev(res)
+                    env._rec("refinement minimises the squared deviation over the fitted region, which does not increase",
+                             d1 <= d0 * (1 + 1e-7) + 1e-10, f"{d1!r} > {d0!r}")
                 # the returned droplet carries exactly the optimiser's result in its free parameters
                 flat = [env.num(x) for x in res.position] + [env.num(res.radius), env.num(res.interface_width)] + \
                     [env.num(a) for a in getattr(res, "amplitudes", [])]
@@ -198,6 +242,12 @@ class C04Refine(Harness):
                             per = sp["z1"] - sp["z0"]
                         if per is None:
                             env.prove_eq(f"returned parameter = optimiser result [{i}]", flat[i], x)
+                        elif env.mode == "float":
+                            # the real optimiser may leave the box by any number of periods
+                            j = round((flat[i] - float(x)) / float(per))
+                            env.prove_eq(f"returned position = optimiser result modulo the period [{i}]", flat[i], float(x) + j * float(per))
+                            if sp["kind"] == "cyl" and j != 0:
+                                env.tag("cyl-periodic-z-result-wrapped")
                         else:
                             env.prove(f"returned position = optimiser result modulo the period [{i}]",
                                       env.Or(*[env.eq(flat[i], x + j * per) for j in range(-2, 3)]))
